@@ -1,6 +1,6 @@
 // C05 replayer: executes Accounting.tla behaviours on one fresh device per behaviour and reports
 // (memoryAllocated, maxMemoryAllocated) after every step.
-//   case   : {"steps":[{"a":..,"x":..,"n":..,"use":b,"own":b,"src":b},...]}
+//   case   : {"steps":[{"a":..,"x":..,"n":..,"use":b,"own":b,"src":b},...]}   (sizes, alignments in bytes)
 //   output : {"beh":i,"obs":[{"err":0|1,"mem":..,"max":..,"psz":[pool sizes]},...],"end":{"mem":..}}
 // Buffers are identified by the spec's buffer number; a buffer is held through the memory handles of
 // its views.  No model here: action names are mapped to API calls.
@@ -20,8 +20,8 @@ struct State {
   std::map<long, std::vector<occa::memory> > views;   // buffer number -> live views
   std::map<long, occa::memoryPool> pools;
   std::map<long, std::map<long, occa::memory> > res;  // pool -> reservation id -> handle
+  std::map<long, long> nres;                           // pool -> reservations handed out so far
   std::vector<void*> userOwned;                        // host memory the library must not free
-  long cell = 128;
 };
 
 static std::string observe(State &S, bool err) {
@@ -75,12 +75,14 @@ static void doStep(State &S, const mj::Value &st) {
   } else if (a == "newPool") {
     S.pools[x] = S.dev.createMemoryPool();
   } else if (a == "reserve") {
-    S.res[x][n] = S.pools[x].reserve<char>(S.cell);
+    // n bytes; the reservation gets the next number of its pool (the spec numbers them the same way)
+    occa::memory r = S.pools[x].reserve<char>(n);
+    S.res[x][++S.nres[x]] = r;
   } else if (a == "release") {
     S.res[x][n].free();
     S.res[x].erase(n);
   } else if (a == "resize") {
-    S.pools[x].resize((occa::udim_t) n * S.cell);
+    S.pools[x].resize((occa::udim_t) n);
   } else if (a == "shrink") {
     S.pools[x].shrinkToFit();
   } else if (a == "align") {
